@@ -23,3 +23,16 @@ Definition run_show (c : option nat * option nat * list op) : string :=
   let '(s, es) := run size backlog init ops in
   String.concat " " (map show_ev es) ++ " |w=" ++ show_list show_nat (waiting s)
   ++ " p=" ++ show_list show_Z (pending s).
+
+(** re-entrant cases: reactions given as an association list get id -> operations *)
+Fixpoint react_of (l : list (nat * list op)) (i : nat) : list op :=
+  match l with
+  | [] => []
+  | (j, ops) :: r => if Nat.eqb i j then ops else react_of r i
+  end.
+
+Definition run_show_re (c : option nat * option nat * list (nat * list op) * list op) : string :=
+  let '(size, backlog, reacts, ops) := c in
+  let '(s, es, done) := run_re size backlog (react_of reacts) 400 init ops in
+  String.concat " " (map show_ev es) ++ " |w=" ++ show_list show_nat (waiting s)
+  ++ " p=" ++ show_list show_Z (pending s).
